@@ -1157,9 +1157,12 @@ class Deb822(Deb822Dict):
                     if not blank_line.match(line):
                         lines.append(line)
                     else:
-                        if not gpg_pre_lines:
+                        if not gpg_pre_lines and \
+                                any(not l.startswith(b'#') for l in lines):
                             # There's no gpg signature, so we should stop at
-                            # this blank line
+                            # this blank line (unless all we have seen so far
+                            # are comment lines: they are ignored and do not
+                            # make a paragraph of their own)
                             break
                 elif state == b'SIGNED MESSAGE':
                     if blank_line.match(line):
